@@ -28,6 +28,7 @@ def run(ctx, crate):
     rule_limiter_admission(ctx, crate)
     rule_limiter_constants(ctx, crate)
     rule_force_is_constant(ctx, crate)
+    rule_limiter_whole_duration(ctx, crate)
     # "skipped draws lose nothing": a member's rendering is refreshed before the MultiProgress limiter decides
     from .c02 import rule_multi_arm_unconditional
     rule_multi_arm_unconditional(ctx, crate)
@@ -256,6 +257,26 @@ def rule_limiter_constants(ctx, crate, rule="R-LIMITER-CONSTANTS"):
             cs = x.calls(r"draw_target::ProgressDrawTarget::term")
             ctx.check(bool(cs) and all(is_const(c.args[1], 20) for c in cs), rule, "default-rate:%s" % K.meth(fn), fn, K.fn_loc(x), "default refresh rate is 20 Hz",
                       "the default refresh rate is not 20 Hz", cfg)
+
+
+def rule_limiter_whole_duration(ctx, crate, rule="R-LIMITER-ADMISSION"):
+    """"a request arriving at least one refresh interval after the last painted frame is always painted": the elapsed time
+    that the limiter tests and converts into tokens is the whole duration since `prev` — an accessor that drops the whole
+    seconds (`subsec_millis/micros/nanos`) may only appear together with `as_secs` on the same value."""
+    cfg = crate.config
+    n = 0
+    for fn in (r"draw_target::RateLimiter::allow", r"state::AtomicPosition::allow"):
+        b = K.find_one(ctx, crate, rule, fn)
+        if not b:
+            continue
+        n += 1
+        sub = b.calls(r"std::time::Duration::subsec_(millis|micros|nanos)")
+        secs = b.calls(r"std::time::Duration::as_secs")
+        bad = [c for c in sub if not any(b.slice_args(s, [0], through_calls=False).locals & b.slice_args(c, [0], through_calls=False).locals for s in secs)]
+        ctx.check(not bad, rule, "whole-elapsed:%s" % fn.split("::")[1], b.name, bad[0].loc() if bad else K.fn_loc(b),
+                  "the limiter works with the whole elapsed duration", "the limiter uses %s of the elapsed time without the whole seconds: after an idle gap of k seconds plus "
+                  "less than one interval it still refuses (a stale frame stays)" % (K.meth(bad[0].path) if bad else ""), cfg)
+    ctx.floor(rule, n, 2, cfg, "limiter admission functions")
 
 
 def rule_force_is_constant(ctx, crate, rule="R-FORCE-IS-CONSTANT"):
